@@ -3,7 +3,7 @@
    the lifecycle scripts selected by ScriptSet, an optional second stopper "S2" runs Script2. *)
 EXTENDS QtlThreads
 
-CONSTANTS NMsgs, ScriptSet, Script2Set, UseLogger, RecheckThread, SafeEnv, Locks, RealTime, Disconnect
+CONSTANTS NMsgs, ScriptSet, Script2Set, UseLogger, RecheckThread, SafeEnv, Locks, RealTime, Disconnect, FatalEvery
 
 Scripts ==
     [ sync      |-> <<>>,                                                   \* never asynchronous
@@ -23,7 +23,7 @@ Scripts2 == [ none |-> <<>>, reset |-> <<"reset">>, move |-> <<"move">> ]
 
 MCInit ==
     /\ Init
-    /\ conf = [useLogger |-> UseLogger, recheck |-> RecheckThread, safeEnv |-> SafeEnv, locks |-> Locks, eager |-> FALSE, rt |-> RealTime, disc |-> Disconnect]
+    /\ conf = [useLogger |-> UseLogger, recheck |-> RecheckThread, safeEnv |-> SafeEnv, locks |-> Locks, eager |-> FALSE, rt |-> RealTime, disc |-> Disconnect, fatalEvery |-> FatalEvery]
     /\ todo = [t \in Producers |-> [i \in 1..NMsgs |-> <<t, i>>]]
     /\ \E a \in ScriptSet, b \in Script2Set :
           script = [s \in Stoppers |-> IF s = "M" THEN Scripts[a] ELSE Scripts2[b]]
